@@ -1891,6 +1891,13 @@ class Normaliser:
 
         for blk in list(self._blocks(fn)):
             for i, st in enumerate(blk):
+                # for x in (A if c else B): BODY  ->  if c: for x in A: BODY  else: for x in B: BODY
+                if isinstance(st, ast.For) and isinstance(st.iter, ast.IfExp) and not has_call(st.iter.test):
+                    a_, b_ = clone(st), clone(st)
+                    a_.iter, b_.iter = st.iter.body, st.iter.orelse
+                    blk[i] = ast.copy_location(ast.If(test=st.iter.test, body=[a_], orelse=[b_]), st)
+                    changed = True
+                    continue
                 val = getattr(st, 'value', None)
                 if not isinstance(st, (ast.Assign, ast.AnnAssign, ast.Return, ast.Expr)) or val is None:
                     continue
